@@ -135,6 +135,37 @@ def check_namespace(ctx, facts, items, selfname, where, rule='key-field-agreemen
     return True
 
 
+
+def invalid_text_not_defaulted(ctx, f, in_scope, rule='invalid-text-not-defaulted'):
+    """Every text-to-value conversion in the configuration module (str::parse, FromStr::from_str) hands its Result on (`?`, map_err, a
+    comparison, the return value); it is never consumed by unwrap_or* / unwrap_or_default / ok() — which would silently replace
+    unparsable text by a default and make `set` accept a value it then does not report back."""
+    import resultflow as rf
+    n = 0
+    parsers = [k for k in f.callers if k == 'core::str::<impl str>::parse' or k.endswith('core::str::traits::FromStr>::from_str')]
+    for k in parsers:
+        for c in sorted(set(f.callers[k])):
+            if not in_scope(c):
+                continue
+            for i in range(len(f.fn_index[c])):
+                rec = f.fn(c, i)
+                if 'bb' not in rec:
+                    continue
+                for b in rec['bb']:
+                    t = b['t']
+                    if t[0] == 'call' and not b.get('cu') and (t[1].get('res') or t[1].get('def')) == k and not t[3][1]:
+                        n += 1
+                        fates = rf.fate(rec, t[3][0])
+                        bad = sorted(x for x in fates if x.startswith('swallow:') or x in ('dropped',))
+                        inst = '%s <- %s' % (c, k.rsplit('::', 2)[-2] + '::' + k.rsplit('::', 1)[-1])
+                        ctx.analysed_fns.add(c)
+                        if bad:
+                            ctx.fail(rule, inst, ctx.loc(rec, t[5] if len(t) > 5 else None), 'the result of parsing configuration text is consumed by %s: text that does not parse is '
+                                     'silently replaced by a default instead of being rejected' % bad, key='%s|%s' % (rule, inst))
+                        else:
+                            ctx.ok(rule, inst, sample={'site': c, 'parser': k, 'fate': sorted(fates)} if n <= 5 else None)
+    return n
+
 def run(ctx):
     f = ctx.facts
     n = 0
@@ -166,9 +197,15 @@ def run(ctx):
             ctx.ok('display-fromstr-roundtrip', a, sample={'enum': a, 'table': {v: s for v, (s, _) in rt.items()}})
     ctx.floor('display-fromstr-roundtrip', 'leaf option enums', m, 9)
     # selftest
+    nt = invalid_text_not_defaulted(ctx, f, lambda c: (c[1:] if c.startswith('<') else c).startswith('datafusion_common::config'))
+    ctx.floor('invalid-text-not-defaulted', 'parse sites in the configuration module', nt, 10)
     import common
     st = ctx.st
     probe = common.Ctx(ctx.pid, ctx.tier, st, st, {})
     probe.known = []
     r = check_namespace(probe, st, {'set': 'dfscan_selftest::conf::Opts::set', 'visit': 'dfscan_selftest::conf::Opts::visit'}, 'Opts', 'selftest', rule='st')
     ctx.selftest('key agreement detects a key that set accepts but visit never reports', r is False)
+    invalid_text_not_defaulted(probe, st, lambda c: 'dfscan_selftest::conf::' in c, rule='st-parse')
+    keys = [v['key'] for v in probe.viol if v['key'].startswith('st-parse|')]
+    ctx.selftest('parse rule reports unwrap_or_default on a parse result (bad_transform), accepts the comparison form (good_transform)',
+                 any('bad_transform' in x for x in keys) and not any('good_transform' in x for x in keys))
